@@ -153,6 +153,7 @@ pub fn parse(image: &Image) -> Parsed {
     let mut cur_padding = 0usize;
     let mut pending_padding = 0usize;
     let mut ended = false;
+    let mut seen_first = false;
     p.end = (0, 0);
     'files: for (fi, (_, data)) in files.iter().enumerate() {
         if ended {
@@ -202,13 +203,19 @@ pub fn parse(image: &Image) -> Parsed {
                     cur.clear();
                     cur_first = Some(p.frames.len());
                     cur_padding = 0;
-                } else if cur_first.is_none() {
+                } else if cur_first.is_none() && seen_first {
                     p.problems.push(format!("continuation frame without start at file {fi} off {}", b * BLOCK + c));
                 }
+                // the oldest surviving file may begin with the tail of an entry whose head was
+                // garbage collected with the previous file: such frames belong to no entry
+                let orphan = cur_first.is_none();
+                seen_first |= first;
                 cur_padding += pending_padding;
                 pending_padding = 0;
-                p.frames.push(Frame { file: fi, off: b * BLOCK + c, len, ftype, entry: p.entries.len() });
-                cur.extend_from_slice(payload);
+                p.frames.push(Frame { file: fi, off: b * BLOCK + c, len, ftype, entry: if orphan { usize::MAX } else { p.entries.len() } });
+                if !orphan {
+                    cur.extend_from_slice(payload);
+                }
                 c += HDR + len;
                 if last {
                     if let Some(ff) = cur_first.take() {
